@@ -228,6 +228,7 @@ def _gen_pl(rng, n):
         ex = ["%d:%d" % (u, rng.randint(1, 40)) for u in [1, 2, 3, 4, 5, 6] if rng.random() < 0.12]
         known = list(ids)
         inflight = set()
+        killed, gatedk = set(), []     # containers KillContainer was called for; kb<u> not yet answered
         ops = []
         for _ in range(rng.randint(1, 16)):
             r = rng.random()
@@ -238,8 +239,23 @@ def _gen_pl(rng, n):
             elif r < 0.27:
                 # the start command returns -- now and then with an error (which says nothing about the process)
                 ops.append("sd%d" % u + (":1" if rng.random() < 0.3 else ""))
-            elif r < 0.33:
+            elif r < 0.30:
                 ops.append("kl%d" % u)
+                killed.add(u)
+            elif r < 0.33:
+                # the runner's Kill/Close state machine: the kill loop gives up (kg), or its first signal is
+                # held back (kb) and answered later (ke: process gone / still running)
+                if gatedk and rng.random() < 0.5:
+                    ops.append("ke%d:%d" % (gatedk.pop(0), rng.random() < 0.6))
+                elif u not in killed:
+                    killed.add(u)
+                    if rng.random() < 0.5:
+                        ops.append("kg%d:%d" % (u, rng.random() < 0.4))
+                    else:
+                        ops.append("kb%d" % u)
+                        gatedk.append(u)
+                else:
+                    ops.append("rn")
             elif r < 0.38:
                 ops.append("fg%d" % u)
             elif r < 0.44:
@@ -334,6 +350,7 @@ def _gen_pl_truthful(rng, n):
         pending = {}            # uuid -> worker (deterministic: one idle worker per type)
         probing = {}            # worker -> sampled list
         busy = {1: False, 2: False}
+        drained, gatedk, tkilled = set(), [], set()
         ops = ["tt"]
         uu = [1, 2, 3, 4]
         for _ in range(rng.randint(3, 12)):
@@ -348,7 +365,30 @@ def _gen_pl_truthful(rng, n):
                 u = rng.choice(sorted(pending))
                 ops.append("sd%d" % u + (":1" if rng.random() < 0.35 else ""))
                 alive[pending.pop(u)].append(u)
-            elif r < 0.8 and w not in probing:
+            elif r < 0.62 and alive[w] and w not in drained and rng.random() < 0.5:
+                # the scheduler kills a container whose process does not go away: the kill loop gives up and the
+                # worker is drained (and shut down once every runner has given up) -- the process is still there
+                u = rng.choice(alive[w])
+                if u not in tkilled:
+                    tkilled.add(u)
+                    if rng.random() < 0.5:
+                        ops.append("kg%d:0" % u)
+                        drained.add(w)
+                    else:
+                        ops.append("kb%d" % u)
+                        gatedk.append((w, u))
+                else:
+                    ops.append("rn")
+            elif r < 0.66 and gatedk:
+                # the held-back `crunch-run --kill` returns: error (still running) or success (process gone)
+                kw, u = gatedk.pop(0)
+                gone = rng.random() < 0.5
+                ops.append("ke%d:%d" % (u, gone))
+                if gone:
+                    alive[kw].remove(u)
+                    if kw in probing and u in probing[kw]:
+                        pass    # a probe that sampled before the exit may still list it: it began earlier
+            elif r < 0.8 and w not in probing and w not in drained:
                 ops.append("pb%d:0" % w)
                 probing[w] = list(alive[w])
             elif w in probing:
@@ -643,7 +683,7 @@ def _oracle_pl(f, impl):
     if len(parts) != 3:
         return "driver could not observe the pool: " + impl[:200]
     # a worker may only be dropped on the strength of an instance list the cloud actually returned
-    gs_ops = [o for o in _split(f[3]) if o[:2] in ("st", "kl", "rn", "gs")]
+    gs_ops = [o for o in _split(f[3]) if o[:2] in ("st", "kl", "rn", "gs", "kg", "kb")]
     for o, tok in zip(gs_ops, _split(parts[0])):
         if o.startswith("gs") and o[2] in "er" and tok != "d-":
             return (f"worker(s) {tok[1:]} were dropped from the pool although the cloud did not return an instance "
@@ -660,7 +700,8 @@ def _oracle_pl(f, impl):
         # must be reported by Running() as alive (no exit time), otherwise the scheduler would requeue or
         # restart it while it runs
         launched = {int(o[2:].split(":")[0]) for o in ops if o.startswith("sd")}
-        started = {int(o[2:].split(":")[1]) for o, t in zip([o for o in ops if o[:2] in ("st", "kl", "rn", "gs")], toks)
+        launched -= {int(o[2:].split(":")[0]) for o in ops if o.startswith("ke") and o.endswith(":1")}
+        started = {int(o[2:].split(":")[1]) for o, t in zip([o for o in ops if o[:2] in ("st", "kl", "rn", "gs", "kg", "kb")], toks)
                    if o.startswith("st") and t != "w0"}
         live = launched & started
         last = toks[-1]
@@ -924,6 +965,8 @@ def describe(cases, impl):
                 d["rq_overquota"] += 1 if "aq=1" in r else 0
         elif f[0] == "pl":
             d["pl_start_cmds_returning_error"] += len(re.findall(r"\bsd\d+:1\b", f[3]))
+            for k, name in (("kg", "pl_kill_loops_giving_up"), ("kb", "pl_kill_signals_held"), ("ke", "pl_kill_signals_answered")):
+                d[name] = d.get(name, 0) + len(re.findall(r"\b%s\d" % k, f[3]))
         elif f[0] == "e2e" and r and r.startswith("e2e-crash "):
             e = d.setdefault("e2e_dispatcher_panics", {})
             key = next((b for a, b in KNOWN_PANICS if a in r and b in r), "other")
